@@ -8,6 +8,19 @@ ARITY = {"new": 4, "res": 3, "set": 5, "ins": 3, "cut": 3, "det": 2, "cln": 2, "
          "app": 2, "slen": 2, "cpy": 2, "mov": 2, "uins": 2, "ures": 2, "itest": 3}
 NH = 3
 END_OK = "end|live=0|leak=0"
+# One switch per proposed patch under docs/ (the model is the code AS PATCHED; while a patch is not in the tree under
+# test the cases that need it are not generated).  Set to True once the patch is committed in /repo.
+PATCHED_SET_NOINIT_COPY = False   # docs/C05_set_noinit_copy.diff: mpt_buffer_set copies elements that have a finaliser but no
+#                                   init function byte by byte (detach / reserve of a shared buffer, buffer::copy): finalised twice
+PATCHED_DETACH_NOFINI = False     # docs/C05_detach_nofini.diff: detach of a private immutable buffer to fewer bytes than used,
+#                                   traits without finaliser: all used bytes are copied into the smaller block (heap overflow)
+_SWITCHES = ("SET_NOINIT_COPY", "DETACH_NOFINI")
+# testing aid (scratch trees): VERIF_C05_PATCHED="SET_NOINIT_COPY" or "ALL" turns switches on without editing this file
+for _n in os.environ.get("VERIF_C05_PATCHED", "").replace(",", " ").split():
+    for _m in (_SWITCHES if _n == "ALL" else (_n,)):
+        if _m in _SWITCHES:
+            globals()["PATCHED_" + _m] = True
+SHAPES = ("A", "F", "I")          # init+fini / fini only / init only (first letter of the case)
 REQUIRE = ("ok: every constructor call creates a new element, every destructor call hits a live element exactly once, "
            "stored elements = live elements, nothing alive after the last release")
 
@@ -31,11 +44,17 @@ class Sim:
 LIBTYPES = [("id", 16), ("arr", 8), ("mref", 8), ("cfg", 32), ("cmd", 24)]
 
 
-def gen_case(rng, cxx=True, fail=True, maxops=14, lib=None):
+def gen_case(rng, cxx=True, fail=True, maxops=14, lib=None, shape="A"):
     szs = rng.choice([(8, 16), (16, 24), (24, 8), (8, 24), (16, 8), (8, 8)])
     if lib:
         szs = (lib[1], rng.choice([8, 16, 24]))
         fail = False
+    if shape == "F":
+        fail = False              # no init function: the library never calls a constructor
+    # cases kept out while a patch is not in the tree (see the switches above)
+    nocopy_only = shape == "F" and not PATCHED_SET_NOINIT_COPY
+    fmode = rng.choice(["share", "reserve"]) if nocopy_only else None
+    no_imm = (shape == "I" and not PATCHED_DETACH_NOFINI) or fmode == "reserve"
     sz = {"a": szs[0], "b": szs[1], "r": 1}
     if fail and rng.random() < 0.5:
         n = rng.randrange(1, 14)
@@ -81,9 +100,13 @@ def gen_case(rng, cxx=True, fail=True, maxops=14, lib=None):
         if not live or rng.random() < 0.12:
             h = rng.randrange(NH)
             k = rng.choice(["a", "a", "a", "b", "r"])
-            if rng.random() < 0.5:
+            if rng.random() < 0.5 or fmode == "share":
                 n = rng.choice([0, 1, 2, 3, 5, 8, 9, 20]) * sz[k]
                 f = rng.choice([0, 0, 0, 0, 1, 2, 3])
+                if no_imm:
+                    f &= 2
+                if fmode == "share":
+                    f |= 2
                 ops.append(["new", h, k, n, f])
                 sim.h[h] = {"kind": k, "n": 0, "cap": cap_of(n)}
             else:
@@ -104,6 +127,9 @@ def gen_case(rng, cxx=True, fail=True, maxops=14, lib=None):
         if lib and lib[0] == "cmd":
             # elements made by the harness carry a handler and cannot be copied: no buffer-to-buffer copies
             names = [x for x in names if x not in ("cln", "cpy")]
+        if nocopy_only:
+            # shared or immutable buffers carry BufferNoCopy ("share") or buffers are never shared ("reserve")
+            names = [x for x in names if x not in (("cpy", "res") if fmode == "share" else ("cpy", "cln"))]
         o = rng.choice(names)
         h = pick_h()
         b = sim.h[h]
@@ -112,7 +138,7 @@ def gen_case(rng, cxx=True, fail=True, maxops=14, lib=None):
             ks = k if rng.random() < 0.9 else rng.choice(["a", "b", "r"])
             pos = pos_bytes(h)
             ln = len_bytes(h, pos)
-            ops.append(["set", h, ks, pos, ln, rng.choice(["c", "c", "d"])])
+            ops.append(["set", h, ks, pos, ln, "d" if nocopy_only else rng.choice(["c", "c", "d"])])
             if b and ks == k and (pos + ln) <= b["cap"]:
                 b["n"] = max(b["n"], (pos + ln) // sz[k])
         elif o == "ins":
@@ -202,15 +228,19 @@ def gen_case(rng, cxx=True, fail=True, maxops=14, lib=None):
                 b["n"] = gb["n"]
                 if o == "mov":
                     gb["n"] = 0
-    first = "L%s:%d" % lib if lib else "A%d" % szs[0]
+    first = "L%s:%d" % lib if lib else "%s%d" % (shape, szs[0])
     return " ".join([first, "B%d" % szs[1], "s" + script] + [str(x) for o in ops for x in o])
 
 
-def sweep_cases(tier="quick"):
+def sweep_cases(tier="quick", shape="A"):
     """small-scope sweep: a filled buffer, optionally shared, then one operation at every element position"""
     out = []
     quick = tier == "quick"
-    for s in (8, 16, 24):
+    nocopy_only = shape == "F" and not PATCHED_SET_NOINIT_COPY
+    sizes = (8, 16, 24)
+    if quick and shape != "A":
+        sizes = (8, 16) if shape == "F" else (16,)
+    for s in sizes:
         other = {8: 16, 16: 24, 24: 8}[s]
         cap = 64 // s
         fills = range(0, cap + 1)
@@ -219,21 +249,32 @@ def sweep_cases(tier="quick"):
         set_scripts = ("-", "0", "10", "100", "1100", "11010")
         if quick:
             set_scripts = ("-", "0", "10", "1100") if s == 8 else ("-", "0", "10", "100", "1100")
+        few = ("-", "0", "10")
+        four = ("-", "0", "10", "1110")
+        if shape == "F":
+            # no init function: the library calls no constructor, the script is never read
+            set_scripts = few = four = ("-",)
+        elif shape == "I" and quick:
+            set_scripts = ("-", "0", "10")
+        srcs = ("d",) if nocopy_only else ("c", "d")
         for n in fills:
-            fill = ["new", 0, "a", 0, 0] + (["set", 0, "a", 0, n * s, "c"])
+            # elements of traits without init function are made by the caller: append + construct
+            # (shared or immutable buffers of such elements carry BufferNoCopy while the patch is not in)
+            fill = (["new", 0, "a", 0, 2 if nocopy_only else 0]
+                    + (["app", 0, n * s] if shape == "F" else ["set", 0, "a", 0, n * s, "c"]))
             for sharedp in (0, 1):
                 pre = fill + (["cln", 1, 0] if sharedp else [])
                 tail = []
                 for p in range(0, cap + 2):
                     for ln in range(0, cap + 2 - min(p, cap)):
                         for script in set_scripts:
-                            for src in ("c", "d"):
+                            for src in srcs:
                                 tail.append((script, ["set", 0, "a", p * s, ln * s, src]))
                         tail.append(("-", ["cut", 0, p * s, ln * s]))
-                        for script in ("-", "0", "10"):
+                        for script in few:
                             tail.append((script, ["ins", 0, p * s, ln * s]))
                 for ln in range(0, cap + 2):
-                    for script in ("-", "0", "10", "1110"):
+                    for script in four:
                         tail.append((script, ["det", 0, ln * s]))
                         tail.append((script, ["det", 0, (cap + 1 + ln) * s]))
                         tail.append((script, ["res", 0, "a", ln * s]))
@@ -248,12 +289,14 @@ def sweep_cases(tier="quick"):
                     tail.append(("-", ["ures", 0, ln]))
                     tail.append(("-", ["ures", 0, cap + 1 + ln]))
                 for script, t in tail:
-                    out.append(" ".join(["A%d" % s, "B%d" % other, "s" + script] + [str(x) for x in pre + t]))
+                    out.append(" ".join(["%s%d" % (shape, s), "B%d" % other, "s" + script] + [str(x) for x in pre + t]))
         # C++ unique_array<T> starting from the empty array (static dummy buffer)
         for a in range(0, cap + 3):
             for b2 in range(0, cap + 3):
-                out.append("A%d B%d s- uins 0 %d uins 0 %d ures 0 %d" % (s, other, a, b2, a))
-                out.append("A%d B%d s- ures 0 %d uins 0 %d cln 1 0 uins 1 %d ures 0 %d" % (s, other, a, b2, a, b2))
+                out.append("%s%d B%d s- uins 0 %d uins 0 %d ures 0 %d" % (shape, s, other, a, b2, a))
+                out.append("%s%d B%d s- ures 0 %d uins 0 %d cln 1 0 uins 1 %d ures 0 %d" % (shape, s, other, a, b2, a, b2))
+    if shape != "A":
+        return out
     # item_array<T>::compact on library items: every pattern of empty / filled items
     for n in range(1, 5 if quick else 7):
         for names in (0, 1):
@@ -261,6 +304,60 @@ def sweep_cases(tier="quick"):
             for mask in range(0, 1 << n):
                 ops += ["itest", mask, n, names]
             out.append(" ".join(["A8", "B16", "s-"] + [str(x) for x in ops]))
+    return out
+
+
+def stale_cases(tier="quick", shape="A"):
+    """histories that leave STALE BYTES behind the used data and then grow over them: n elements, remove some (cut at the
+    front / in the middle / at the end, trim, skip, set_length, resize: a memmove leaves a byte copy of the last moved
+    element behind _used, a finaliser leaves a finalised pattern), then every operation that makes slots behind the used
+    data part of the content at every position up to the capacity (insert strictly beyond the end, set beyond the end,
+    set_length, resize, unique_array insert), then release"""
+    out = []
+    quick = tier == "quick"
+    sizes = (8, 16, 24)
+    if quick:
+        sizes = (8, 16) if shape == "F" else (16,)
+    for s in sizes:
+        other = {8: 16, 16: 24, 24: 8}[s]
+        cap = 64 // s
+        fills = range(1, cap + 1)
+        if quick and s == 8:
+            fills = (1, 2, 3, 5, 8)
+        for n in fills:
+            fill = ["new", 0, "a", 0, 0] + (["app", 0, n * s] if shape == "F" else ["set", 0, "a", 0, n * s, "c"])
+            shrinks = []
+            for k in sorted(set([1, 2, n])):
+                if k > n:
+                    continue
+                shrinks += [["cut", 0, 0, k * s], ["skip", 0, k * s], ["trim", 0, k * s], ["slen", 0, (n - k) * s],
+                            ["ures", 0, n - k], ["cut", 0, (n - k) * s, 0], ["cut", 0, (n - k) * s, k * s]]
+                if n - k >= 2:
+                    shrinks.append(["cut", 0, s, k * s])
+            for sh in shrinks:
+                left = n - (sh[-1] // s if sh[0] in ("cut", "skip", "trim") and sh[-1] else 0)
+                if sh[0] == "slen":
+                    left = sh[2] // s
+                elif sh[0] == "ures":
+                    left = sh[2]
+                elif sh[0] == "cut" and sh[3] == 0:
+                    left = sh[2] // s
+                grows = []
+                for p in range(left, cap + 1):
+                    for ln in (0, 1, 2):
+                        if p + ln <= cap + 1 and (p > left or ln):
+                            grows.append(["ins", 0, p * s, ln * s])
+                            grows.append(["set", 0, "a", p * s, ln * s, "d"])
+                    if p > left:
+                        grows.append(["slen", 0, p * s])
+                        grows.append(["ures", 0, p])
+                        grows.append(["uins", 0, p])
+                for g in grows:
+                    out.append(" ".join(["%s%d" % (shape, s), "B%d" % other, "s-"] + [str(x) for x in fill + sh + g]))
+                # two rounds: shrink, grow, shrink again, grow again
+                out.append(" ".join(["%s%d" % (shape, s), "B%d" % other, "s-"]
+                                    + [str(x) for x in fill + sh + ["ins", 0, (left + 1) * s, s] + ["cut", 0, 0, s]
+                                       + ["slen", 0, min(cap, left + 3) * s]]))
     return out
 
 
@@ -275,7 +372,9 @@ class C05(DiffProperty):
     harness_args = ("60",)
     libs = ["mptcore", "mpt++"]
     harness_env = dict(vcheck.ASAN_LEAK_ENV,
-                       ASAN_OPTIONS=vcheck.ASAN_LEAK_ENV["ASAN_OPTIONS"] + ":symbolize=0")
+                       ASAN_OPTIONS=vcheck.ASAN_LEAK_ENV["ASAN_OPTIONS"] + ":symbolize=0"
+                       # fresh heap memory is never zero (a zero slot is the empty element of traits without init)
+                       + ":max_malloc_fill_size=1048576:malloc_fill_byte=190")
     extra_harness_flags = ["-fno-sanitize=vptr"]
     rule = ("a case = element sizes of the two harness traits (8/16/24) or a library element type (identifier, array, metatype "
             "reference, config item, command) + script of failing constructor calls + a history over 3 handles of "
@@ -351,7 +450,7 @@ class C05(DiffProperty):
             for j in range(2, len(o)):
                 if o[j].isdigit() and int(o[j]) > 0 and o[0] not in ("cln", "cpy", "mov"):
                     v = int(o[j])
-                    esz = int(hdr[0].split(":")[-1].lstrip("A"))
+                    esz = int(hdr[0].split(":")[-1].lstrip("AFI"))
                     for nv in (0, v - esz, v // 2 // esz * esz):
                         if 0 <= nv < v and not (o[0] == "new" and j == 4):
                             o2 = o[:j] + [str(nv)] + o[j + 1:]
@@ -370,15 +469,29 @@ class C05(DiffProperty):
         if len(ops) > 3:
             cl.add("history>3")
         cl.add(("libtype:" if hdr[0][0] == "L" else "size:") + hdr[0])
+        cl.add("shape:" + {"A": "init+fini", "F": "fini-only", "I": "init-only", "L": "library-type"}[hdr[0][0]])
+        if hdr[0][0] in "FI":
+            # slots behind the used data become content again after something was removed
+            grow = [i for i, n in enumerate(names) if n in ("ins", "set", "slen", "ures", "uins", "app")]
+            shr = [i for i, n in enumerate(names) if n in ("cut", "skip", "trim", "slen", "ures")]
+            if grow and shr and min(shr) < max(grow):
+                cl.add("shrink-then-grow")
         return cl
 
     def generate(self, rng, tier):
-        cases = sweep_cases(tier)
+        cases = []
+        for sh in SHAPES:
+            cases += sweep_cases(tier, sh) + stale_cases(tier, sh)
         n = 2500 if tier == "quick" else 60000
+        mo = 14 if tier == "quick" else 25
         for i in range(n):
-            cases.append(gen_case(rng, maxops=14 if tier == "quick" else 25))
+            cases.append(gen_case(rng, maxops=mo))
         for i in range(n // 3):
-            cases.append(gen_case(rng, maxops=14 if tier == "quick" else 25, lib=LIBTYPES[i % len(LIBTYPES)]))
+            cases.append(gen_case(rng, maxops=mo, lib=LIBTYPES[i % len(LIBTYPES)]))
+        for i in range(1000 if tier == "quick" else 20000):
+            cases.append(gen_case(rng, maxops=mo, shape="F"))
+        for i in range(700 if tier == "quick" else 20000):
+            cases.append(gen_case(rng, maxops=mo, shape="I"))
         return cases
 
     # -- two passes: the specification monitor judges the log the implementation printed
